@@ -170,8 +170,14 @@ func (b *builder) build(goal ast.Atom, depth int) []*ProofNode {
 		return []*ProofNode{{Fact: goal, Partial: true, ID: partialID(goal)}}
 	}
 	h := goal.Hash()
+	taint := noCut
 	if cached, ok := b.cache[h]; ok {
-		return cached
+		taint = minStackPos(cached, b.onStack, map[*ProofNode]bool{})
+		if taint == noCut {
+			return cached
+		}
+		// The memoized proof uses a fact that is being proved right now;
+		// build again in this context.
 	}
 	if pos, ok := b.onStack[h]; ok {
 		if pos < b.minCut {
@@ -189,6 +195,9 @@ func (b *builder) build(goal ast.Atom, depth int) []*ProofNode {
 			b.minCut = outerCut
 		}
 	}()
+	if taint < b.minCut {
+		b.minCut = taint
+	}
 
 	var proofs []*ProofNode
 	events := b.rec.EventsFor(goal)
